@@ -1,6 +1,7 @@
 package main
 
 import (
+	"sync"
 	"bufio"
 	"bytes"
 	"encoding/json"
@@ -24,7 +25,7 @@ type NativeResult struct {
 }
 
 // runNative runs the given cases natively through `go test -overlay` against the real build of repo.
-func runNative(ld *Loaded, cases []ReplayCase, race bool) (map[int]*NativeResult, string, error) {
+func runNative(ld *Loaded, cases []ReplayCase, race bool, isolate bool) (map[int]*NativeResult, string, error) {
 	results := map[int]*NativeResult{}
 	if len(cases) == 0 {
 		return results, "", nil
@@ -78,18 +79,8 @@ func runNative(ld *Loaded, cases []ReplayCase, race bool) (map[int]*NativeResult
 	os.WriteFile(casePath, cj, 0o644)
 
 	var log bytes.Buffer
-	for _, dir := range dirs {
-		rel, _ := filepath.Rel(ld.repo, dir)
-		args := []string{"test", "-vet=off", "-count=1", "-v", "-overlay", ovPath, "-run", "^TestVerifReplay$", "-timeout", "20m"}
-		if race {
-			args = append(args, "-race")
-		}
-		args = append(args, "./"+rel)
-		cmd := exec.Command("go", args...)
-		cmd.Dir = ld.repo
-		cmd.Env = append(os.Environ(), "GOFLAGS=-mod=mod", "GOPROXY=off", "GOSUMDB=off", "GOTOOLCHAIN=local", "VERIF_REPLAY_FILE="+casePath)
-		out, err := cmd.CombinedOutput()
-		log.Write(out)
+	env := append(os.Environ(), "GOFLAGS=-mod=mod", "GOPROXY=off", "GOSUMDB=off", "GOTOOLCHAIN=local")
+	parse := func(out []byte) {
 		sc := bufio.NewScanner(bytes.NewReader(out))
 		sc.Buffer(make([]byte, 1<<20), 1<<26)
 		for sc.Scan() {
@@ -101,9 +92,67 @@ func runNative(ld *Loaded, cases []ReplayCase, race bool) (map[int]*NativeResult
 				}
 			}
 		}
-		if err != nil && len(results) == 0 {
-			return results, log.String(), fmt.Errorf("native replay failed in %s: %v", rel, err)
+	}
+	for di, dir := range dirs {
+		rel, _ := filepath.Rel(ld.repo, dir)
+		bin := filepath.Join(tmp, fmt.Sprintf("pkg%d.test", di))
+		args := []string{"test", "-c", "-vet=off", "-overlay", ovPath, "-o", bin}
+		if race {
+			args = append(args, "-race")
 		}
+		args = append(args, "./"+rel)
+		cmd := exec.Command("go", args...)
+		cmd.Dir = ld.repo
+		cmd.Env = env
+		if out, err := cmd.CombinedOutput(); err != nil {
+			log.Write(out)
+			return results, log.String(), fmt.Errorf("building the native replay binary for %s failed: %v", rel, err)
+		}
+		runOne := func(casePath string) ([]byte, error) {
+			c := exec.Command(bin, "-test.run", "^TestVerifReplay$", "-test.v", "-test.timeout", "20m")
+			c.Dir = dir
+			c.Env = append(append([]string{}, env...), "VERIF_REPLAY_FILE="+casePath)
+			return c.CombinedOutput()
+		}
+		if !isolate {
+			out, err := runOne(casePath)
+			log.Write(out)
+			parse(out)
+			if err != nil && len(results) == 0 {
+				return results, log.String(), fmt.Errorf("native replay failed in %s: %v", rel, err)
+			}
+			continue
+		}
+		// one process per case: package-level state (registries) must not leak between cases
+		mine := map[string]bool{}
+		for _, fn := range byDir[dir] {
+			mine[fn] = true
+		}
+		var mu sync.Mutex
+		var wg sync.WaitGroup
+		sem := make(chan struct{}, 16)
+		for i := range cases {
+			if !mine[cases[i].Harness] {
+				continue
+			}
+			wg.Add(1)
+			sem <- struct{}{}
+			go func(c ReplayCase) {
+				defer wg.Done()
+				defer func() { <-sem }()
+				one, _ := json.Marshal([]ReplayCase{c})
+				cp := filepath.Join(tmp, fmt.Sprintf("case%d_%d.json", di, c.ID))
+				os.WriteFile(cp, one, 0o644)
+				out, _ := runOne(cp)
+				mu.Lock()
+				parse(out)
+				if len(out) > 0 && !bytes.Contains(out, []byte("VFRESULT ")) {
+					log.Write(out)
+				}
+				mu.Unlock()
+			}(cases[i])
+		}
+		wg.Wait()
 	}
 	return results, log.String(), nil
 }
